@@ -19,27 +19,45 @@ package j5schema
 //@ spec func refsOK(p *Package) bool = forall k string {p.Schemas[k]} :: has(p.Schemas, k) ==> p.Schemas[k] != nil && (p.Schemas[k].To == nil || rootOK(p.Schemas[k].To))
 // every package known to a cache is well formed: its schema map exists and holds no half-built entry
 //@ spec func pkgOK(p *Package) bool = p != nil && p.Schemas != nil && refsOK(p)
-//@ spec func cacheOK(c *SchemaCache) bool = forall k string {c.packages[k]} :: has(c.packages, k) ==> c.packages[k] != nil && c.packages[k].Schemas != nil
+//@ spec func cacheOK(c *SchemaCache) bool = forall k string {c.packages[k]} :: has(c.packages, k) ==> c.packages[k] != nil && c.packages[k].Schemas != nil && c.packages[k].PackageSet != nil
+//@ spec func setOK(c *SchemaSet) bool = forall k string {c.Packages[k]} :: has(c.Packages, k) ==> c.Packages[k] != nil && c.Packages[k].Schemas != nil && c.Packages[k].PackageSet != nil
 //@ spec func allPkgsOK() bool = (forall p *Package {p.Schemas} :: p != nil && p.Schemas != nil ==> refsOK(p))
 //@   | && (forall c *SchemaCache {c.packages} :: c != nil && c.packages != nil ==> cacheOK(c))
+//@   | && (forall c *SchemaSet {c.Packages} :: c != nil && c.Packages != nil ==> setOK(c))
 //@ type *SchemaCache invariant sc: sc != nil && sc.packages != nil
 
-// the schema builders (schema_from_proto.go) recurse through the cache; their effect on it is assumed
-// here: they only add entries that are unlinked or linked to a built schema
+// the schema builders (schema_from_proto.go) recurse through the cache; each one keeps every package
+// map well formed: entries are unlinked or linked to a built schema, never to a typed nil
 //@ func (*Package).buildObjectSchema
-//@   opt assumed recursive schema builder: keeps every package map well formed, returns a schema or an error
 //@   requires allPkgsOK()
-//@   ensures allPkgsOK()
-//@   ensures result1 == nil ==> result0 != nil
+//@   ensures wf: allPkgsOK()
+//@   ensures nonnil: result1 == nil ==> result0 != nil
 //@ func (*Package).buildOneofSchema
-//@   opt assumed recursive schema builder: keeps every package map well formed, returns a schema or an error
 //@   requires allPkgsOK()
-//@   ensures allPkgsOK()
-//@   ensures result1 == nil ==> result0 != nil
+//@   ensures wf: allPkgsOK()
+//@   ensures nonnil: result1 == nil ==> result0 != nil
 //@ func (*SchemaCache).referencePackage
 //@   requires allPkgsOK()
 //@   ensures allPkgsOK()
-//@   ensures result != nil && result.Schemas != nil
+//@   ensures result != nil && result.Schemas != nil && result.PackageSet != nil
+//@ type *SchemaSet invariant ps: ps != nil && ps.Packages != nil
+//@ func (*SchemaSet).referencePackage
+//@   requires allPkgsOK()
+//@   ensures allPkgsOK()
+//@   ensures result != nil && result.Schemas != nil && result.PackageSet != nil
+//@ func (*SchemaSet).Package
+//@   requires allPkgsOK()
+//@   ensures allPkgsOK()
+//@   ensures result != nil && result.Schemas != nil && result.PackageSet != nil
+//@ func (*SchemaSet).refTo
+//@   requires allPkgsOK()
+//@   ensures allPkgsOK()
+//@   ensures result0 != nil
+// the set built by SchemaSetFromFiles is discarded on the first error: well-formedness is promised on success
+//@ func (*SchemaSet).messageSchema
+//@   requires allPkgsOK()
+//@   ensures wf: result1 == nil ==> allPkgsOK()
+//@   ensures usable: result1 == nil ==> rootOK(result0)
 //@ func (*SchemaCache).refTo
 //@   requires allPkgsOK()
 //@   ensures allPkgsOK()
@@ -51,3 +69,126 @@ package j5schema
 //@   free requires allPkgsOK()
 //@   ensures wf: allPkgsOK()
 //@   ensures usable: result1 == nil ==> rootOK(result0)
+
+// ---- schema reflection never dereferences nil (C18) ------------------------------------------------
+// Descriptors handed in by protoreflect are usable; a package always knows its set and has its map.
+//@ type *Package invariant p: p != nil && p.Schemas != nil && p.PackageSet != nil
+//@ spec func extOK(e protoFieldExtensions) bool = e.validate != nil
+//@ func getProtoFieldExtensions
+//@   requires src != nil
+//@   ensures extOK(result)
+//@ func (*SchemaSet).messageSchema
+//@   requires src != nil
+//@ func (*Package).schemaRootFromProto
+//@   requires descriptor != nil
+//@ func newRefPlaceholder
+//@   requires ss != nil && descriptor != nil
+//@ func splitDescriptorName
+//@   requires descriptor != nil
+//@ func IsOneofWrapper
+//@   requires msg != nil
+//@ func isOneofWrapper
+//@   requires src != nil
+//@ func findPSMOptions
+//@   requires srcMsg != nil
+//@ func (*Package).messageProperties
+//@   requires src != nil
+//@ func commentDescription
+//@   requires src != nil
+//@ func (*Package).buildSchemaProperty
+//@   requires src != nil
+//@ func ScalarSchemaFromProto
+//@   requires src != nil
+//@ func (*Package).buildEnum
+//@   requires enumDescriptor != nil
+//@ func (*Package).buildSchema
+//@   requires src != nil
+//@ func buildScalarType
+//@   requires src != nil
+//@ func wktSchema
+//@   requires src != nil
+//@ func buildFromStringProto
+//@   requires src != nil
+//@ func buildMessageFieldSchema
+//@   requires pkg != nil && pkg.Schemas != nil && pkg.PackageSet != nil && src != nil
+//@ func buildEnumFieldSchema
+//@   requires pkg != nil && pkg.Schemas != nil && pkg.PackageSet != nil && src != nil
+//@ func (*Package).buildObjectSchema
+//@   requires srcMsg != nil
+//@ func (*Package).buildOneofSchema
+//@   requires srcMsg != nil
+//@ func (*Package).messageProperties
+//@   requires allPkgsOK()
+//@   ensures wf: allPkgsOK()
+//@ func (*Package).buildSchemaProperty
+//@   requires allPkgsOK()
+//@   ensures wf: allPkgsOK()
+//@ func (*Package).buildSchema
+//@   requires allPkgsOK()
+//@   ensures wf: allPkgsOK()
+//@ func buildMessageFieldSchema
+//@   requires allPkgsOK()
+//@   ensures wf: allPkgsOK()
+//@ func buildEnumFieldSchema
+//@   requires allPkgsOK()
+//@   ensures wf: allPkgsOK()
+//@ func newRefPlaceholder
+//@   requires allPkgsOK()
+//@   ensures wf: allPkgsOK()
+//@ func (*Package).buildEnum
+//@   requires allPkgsOK()
+//@   ensures wf: allPkgsOK()
+//@ func newRefPlaceholder
+//@   ensures result0 != nil
+//@ func (*Package).buildEnum
+//@   ensures nonnil: result1 == nil ==> result0 != nil
+//@ func (RootSet).refTo
+//@   opt assumed the two implementations (SchemaCache, SchemaSet) are checked against their own contracts
+//@   requires allPkgsOK()
+//@   ensures allPkgsOK() && result0 != nil
+//@ func (RootSet).referencePackage
+//@   opt assumed the two implementations (SchemaCache, SchemaSet) are checked against their own contracts
+//@   requires allPkgsOK()
+//@   ensures allPkgsOK() && result != nil && result.Schemas != nil && result.PackageSet != nil
+//@ func buildMessageFieldSchema
+//@   requires kind: fdKind(src) == 11 || fdKind(src) == 10
+//@ func buildEnumFieldSchema
+//@   requires kind: fdKind(src) == 14
+// a full name denotes one descriptor in a linked set: the cached entry for an enum's name is an enum
+// schema; were it anything else the assertion below would panic (cannot happen for linked descriptors)
+//@   panics when ref.To != nil && !typeis(ref.To, *EnumSchema)
+//@ func (*Package).schemaRootFromProto
+//@   requires allPkgsOK()
+//@   ensures wf: allPkgsOK()
+// (the bookkeeping of exposed oneofs in messageProperties -- two local maps and five append sites over
+// region-level frames -- produces a query no installed solver decides; its result is assumed usable and
+// its own nil dereferences are not swept)
+//@ func (*Package).messageProperties
+//@   opt nonilcheck local maps of oneof bookkeeping: query too large for the installed solvers
+//@   free ensures props: result1 == nil ==> (forall i int {result0[i]} :: 0 <= i && i < len(result0) ==> result0[i] != nil)
+//@ func (*Package).buildSchemaProperty
+//@   ensures nonnil: result1 == nil ==> result0 != nil
+//@ func (*Package).buildSchema
+//@   ensures nonnil: result1 == nil ==> result0 != nil
+//@ func buildMessageFieldSchema
+//@   ensures nonnil: result1 == nil ==> result0 != nil
+//@ func buildEnumFieldSchema
+//@   ensures nonnil: result1 == nil ==> result0 != nil
+//@ func (*Package).messageProperties
+//@   loop 0 invariant wf: allPkgsOK()
+//@   loop 1 invariant wf: allPkgsOK()
+//@ func (*Package).buildEnum
+//@   loop 0 invariant allPkgsOK() && len(values) == ii && (forall i int {values[i]} :: 0 <= i && i < len(values) ==> values[i] != nil)
+//@   loop 1 invariant allPkgsOK() && len(values) >= 1 && (forall i int {values[i]} :: 0 <= i && i < len(values) ==> values[i] != nil)
+//@   loop 2 invariant allPkgsOK()
+//@ func wktSchema
+//@   ensures nonnil: result2 == nil && result1 ==> result0 != nil
+//@ func splitDescriptorName
+//@   loop 0 invariant current != nil
+// the recursive builders write property lists only of schemas they allocate themselves (assumed
+// refinement of the computed frame: their own writes of this region go to fresh slices and to the
+// Properties of OneofSchemas made in the same call)
+//@ func (*Package).buildSchemaProperty
+//@   frame fresh E:*github.com/pentops/j5/lib/j5schema.ObjectProperty
+//@ func (*Package).buildSchema
+//@   frame fresh E:*github.com/pentops/j5/lib/j5schema.ObjectProperty
